@@ -137,6 +137,20 @@ func resolveAlgRows(c *Ctx, ev *evaluator, fn *ssa.Function, roles map[int64]str
 			}
 		}
 	}
+	// the hash made once behind the switch, from the identifier the switch chose: hashID.New()
+	for _, ret := range returnsOf(fn) {
+		rr := retResults(ret)
+		if call, ok := rr[idx["hash"]].(*ssa.Call); ok && calleeFullName(call) == "(crypto.Hash).New" && len(call.Call.Args) == 1 && call.Call.Args[0] == rr[idx["hashID"]] {
+			for _, pe := range phiEdges(rr[idx["hashID"]], ret.Block()) {
+				if k, ok := caseLabel(pe.From, isTag); ok {
+					if row := rows[k.Int64()]; row != nil && row.hashNew == "" {
+						row.hashNew = row.hashID
+						row.pos = call.Pos()
+					}
+				}
+			}
+		}
+	}
 	if len(rows) == 0 {
 		// no switch over the parameter: the table is data. Evaluate the function for every declared constant.
 		tagT, _ := tag.Type().(*types.Named)
@@ -1490,6 +1504,8 @@ func isCurveOidLookup(c *Ctx, v ssa.Value) bool {
 	return ok && isMapOf(g.Object().Type(), isString, isOID)
 }
 
+var curveOidDepth int
+
 // curveOidRawValue: a RawValue struct whose FullBytes is asn1.Marshal(curve oid lookup).
 func curveOidRawValue(c *Ctx, v ssa.Value) bool {
 	// the value made by a module helper from an OID it is given: the helper wraps the encoding of its parameter, and
@@ -1518,6 +1534,29 @@ func curveOidRawValue(c *Ctx, v ssa.Value) bool {
 			}
 		}
 	}
+	// or made entirely by a module helper (from the curve's name, say): every successful exit of the helper hands back
+	// such a value
+	if ex, isEx := v.(*ssa.Extract); isEx && ex.Index == 0 && curveOidDepth < 2 {
+		if call, isCall := ex.Tuple.(*ssa.Call); isCall {
+			if h := call.Call.StaticCallee(); h != nil && c.InModule(h) && h.Blocks != nil && typeIs(h.Signature.Results().At(0).Type(), "encoding/asn1", "RawValue") {
+				curveOidDepth++
+				all, any := true, false
+				for _, ret := range returnsOf(h) {
+					if definitelyFails(ret) {
+						continue
+					}
+					any = true
+					if !curveOidRawValue(c, retResults(ret)[0]) {
+						all = false
+					}
+				}
+				curveOidDepth--
+				if all && any {
+					return true
+				}
+			}
+		}
+	}
 	if rawValueOfOid(v, func(o ssa.Value) bool { return isCurveOidLookup(c, o) }) {
 		return true
 	}
@@ -1530,6 +1569,14 @@ func curveOidRawValue(c *Ctx, v ssa.Value) bool {
 		return false
 	}
 	for _, ref := range *al.Referrers() {
+		// filled by asn1.Unmarshal(encoding of the curve OID, &value)
+		if mi, isMi := ref.(*ssa.MakeInterface); isMi && mi.Referrers() != nil {
+			for _, r2 := range *mi.Referrers() {
+				if call, isCall := r2.(*ssa.Call); isCall && calleeFullName(call) == "encoding/asn1.Unmarshal" && len(call.Call.Args) == 2 && call.Call.Args[1] == ssa.Value(mi) && marshalOfCurveOid(c, call.Call.Args[0]) {
+					return true
+				}
+			}
+		}
 		fa, ok := ref.(*ssa.FieldAddr)
 		if !ok || fieldOfAddr(fa).Name() != "FullBytes" {
 			continue
@@ -2218,4 +2265,29 @@ func curveOidsByFolding(c *Ctx, r *Rep) string {
 		r.Check(back != "" && back == sym, "inverse|"+cn, c.FnPos(inverse), "the curve found for "+rs(ref, "oid")+" is the curve of "+cn, back)
 	}
 	return ""
+}
+
+// definitelyFails: the return hands back an error that cannot be nil: made on the spot, or known non-nil by a test on
+// the way. An error that is simply passed on (the answer of a last call) may be nil.
+func definitelyFails(ret *ssa.Return) bool {
+	rr := retResults(ret)
+	if len(rr) == 0 || !isErrorType(rr[len(rr)-1].Type()) {
+		return false
+	}
+	e := rr[len(rr)-1]
+	if k, ok := e.(*ssa.Const); ok {
+		return !k.IsNil()
+	}
+	if call, ok := e.(*ssa.Call); ok {
+		switch calleeFullName(call) {
+		case "fmt.Errorf", "errors.New":
+			return true
+		}
+	}
+	for _, g := range guardsOf(ret.Block()) {
+		if x, isNil, ok := nilTestOf(g.Cond, g.Truth); ok && x == e && !isNil {
+			return true
+		}
+	}
+	return false
 }
